@@ -400,12 +400,12 @@ var checkC20Version = register("C20/version", func(c verCase) string {
 	return ""
 })
 
-var codeAlphabet = []byte("NALPHRUCXFTWOMDSBE nlxdp")
+var codeAlphabet = []byte("NALPHRUCXFTWOMDSBE nlxdp01-\t")
 
 func TestC20(t *testing.T) {
 	c := begin(t, "C20")
 	defer c.end()
-	c.rec.F.Rule = "tables (complete): for all 22 v3 and 14 v2 metrics every code, its exported constant, printing, the validity predicates, every weight (PR per scope; every Modified metric at every own value x every base value; MPR over all 3 x 2 x 4 x 3 combinations of MS, S, MPR, PR) and every integer in [-8, max+8]; codes: every string of length <= 3 over a 24-character alphabet (all code letters, lower case, space) at every metric's parser plus rapid arbitrary strings; version: label parser/printer pairs of v3/metric and the legacy v3/version on generated labels and integers. Non-trivial = a string that is not a valid code of the metric (must parse to unknown), or a dependent-weight table; distinct by hash of (version, metric, string)."
+	c.rec.F.Rule = "tables (complete): for all 22 v3 and 14 v2 metrics every code, its exported constant, printing, the validity predicates, every weight (PR per scope; every Modified metric at every own value x every base value; MPR over all 3 x 2 x 4 x 3 combinations of MS, S, MPR, PR) and every integer in [-8, max+8]; codes: every string of length <= 3 over a 28-character alphabet (all code letters, lower case, digits, dash, space, tab) at every metric's parser plus rapid arbitrary strings; version: label parser/printer pairs of v3/metric and the legacy v3/version on generated labels and integers. Non-trivial = a string that is not a valid code of the metric (must parse to unknown), or a dependent-weight table; distinct by hash of (version, metric, string)."
 	c.rec.F.Assumptions = []string{"weights compared with ==: both sides are the nearest double of the same decimal literal", "for the v2 base metrics only separation by IsUnknown is required (its sense is the negation of its name)"}
 	nviol := 0
 	if shard == 0 {
@@ -418,7 +418,7 @@ func TestC20(t *testing.T) {
 			}
 			evalEnum(c, "table", cs, checkC20Table, &nviol)
 		}
-		c.rec.F.Exhaustive = append(c.rec.F.Exhaustive, "36 metrics x codes x constants x scopes / base values x integers in [-8, max+8]", "all strings of length <= 3 over the 24-character code alphabet x 36 parsers")
+		c.rec.F.Exhaustive = append(c.rec.F.Exhaustive, "36 metrics x codes x constants x scopes / base values x integers in [-8, max+8]", "all strings of length <= 3 over the 28-character code alphabet x 36 parsers")
 	}
 	// every string of length <= 3 over the alphabet, at every parser
 	{
